@@ -116,8 +116,11 @@ fn continuation(script: &Script, dir: &TempDir, log: mrecordlog::MultiRecordLog,
         }
         if let Some(q) = first_existing {
             if let Ok(Some(last)) = log_ref.last_position(&script.queues[q]) {
-                if script.enc(last) >= 0 {
-                    steps.push(Step::Truncate { q, p: last.saturating_sub(1) });
+                let below = last.saturating_sub(1);
+                if script.enc(below) >= 0 {
+                    steps.push(Step::Truncate { q, p: below });
+                } else if script.enc(last) >= 0 {
+                    steps.push(Step::Truncate { q, p: last });
                 }
             }
         }
@@ -193,8 +196,11 @@ pub fn recover(
         match opened {
             Ok(log) => {
                 let st = observe(&script, &log, &dir.path, seed);
+                // the continuation depends only on the recovered abstract state, so that equal
+                // recoveries produce equal continuations (and can be grouped)
+                let cont_seed = crate::script::digest(st["qs"].to_string().as_bytes()) as u64;
                 let cont_lines = if cont {
-                    continuation(&script, &dir, log, seed)
+                    continuation(&script, &dir, log, cont_seed)
                 } else {
                     Vec::new()
                 };
